@@ -14,6 +14,8 @@ GEN = os.path.join(VERIF, "gen")
 
 VERIF_FAIL = [
     (r"postcondition not satisfied", "postcondition"),
+    (r"unable to prove post-?condition of closure", "closure_postcondition"),
+    (r"unable to prove pre-?condition of closure|closure.*precondition", "precondition"),
     (r"precondition not satisfied", "precondition"),
     (r"precondition not met", "precondition"),
     (r"index in bounds|index out of bounds", "index"),
@@ -85,7 +87,9 @@ def _clause_tag(lm, l0, l1):
         m = TAG_RE.search(lm.gen_line_text(ln))
         if m:
             return m.group(1), m.group(2).split()
-    # tag may sit on the line that closes a multi-line clause
+    # tag may sit on the line that closes a multi-line clause -- only if the clause continues
+    if re.sub(r"//.*$", "", lm.gen_line_text(l1)).rstrip().endswith((",", ";", "{", "}")):
+        return None, []
     for ln in range(l1 + 1, min(l1 + 4, len(lm.line_offsets))):
         t = lm.gen_line_text(ln)
         m = TAG_RE.search(t)
